@@ -507,7 +507,7 @@ def _markers(ctx, prog):
               unname=Interp.unname)
     ok_step = tm.is_const(b.get("step"), 2)
     try:
-        vd, cd = aff.dims(verts), aff.dims(cols)
+        vd, cd = aff.dims_of(verts), aff.dims_of(cols)
         if len(vd) != 2 or vd[1] != (3,) or not cd or \
                 vd[0] != cd[0] + (2,) or sorted(map(str, cd[0])) != \
                 sorted(map(str, (3, N))):
@@ -517,28 +517,30 @@ def _markers(ctx, prog):
         bad, axes_seen = [], {}
         for idx in aff.positions([cd[0]]):
             seg = idx[0]
-            start = [aff.entry(verts, [seg + (0,), (c,)]) for c in range(3)]
-            end = [aff.entry(verts, [seg + (1,), (c,)]) for c in range(3)]
-            col = aff.entry(cols, [seg] + [(0,)] * (len(cd) - 1)) \
-                if len(cd) == 1 else aff.entry(cols, [seg])
+            start = [aff.entry_at(verts, [seg + (0,), (c,)]) for c in range(3)]
+            end = [aff.entry_at(verts, [seg + (1,), (c,)]) for c in range(3)]
+            col = aff.entry_at(cols, [seg] + [(0,)] * (len(cd) - 1)) \
+                if len(cd) == 1 else aff.entry_at(cols, [seg])
             axis = None
             for c in range(3):
-                pos = {("src", "P", "p", c, 3): {(): 1.0}}
-                if start[c] != pos:
+                pa = ("src", "P", "p", c, 3)
+                if start[c] != {(pa,): 1.0}:
                     bad.append(f"segment {seg}: start coordinate {c} is "
                                f"{show(start[c])}, expected P[p][{c}, 3]")
                     continue
                 diff = dict(end[c])
-                if diff.pop(("src", "P", "p", c, 3), None) != {(): 1.0} or \
-                        len(diff) != 1:
+                if diff.pop((pa,), None) != 1.0 or len(diff) != 1:
                     bad.append(f"segment {seg}: end coordinate {c} is "
                                f"{show(end[c])}")
                     continue
-                (k, coef), = diff.items()
-                if coef != {("s",): 1.0} or k[:3] != ("src", "P", "p"):
+                (mono, coef), = diff.items()
+                srcs = [x for x in mono if x[0] == "src"]
+                if coef != 1.0 or len(mono) != 2 or ("s", "s") not in mono \
+                        or len(srcs) != 1 or srcs[0][:3] != ("src", "P", "p"):
                     bad.append(f"segment {seg}: end coordinate {c} is "
                                f"{show(end[c])}")
                     continue
+                k = srcs[0]
                 if k[3] != c:
                     bad.append(f"segment {seg}: end coordinate {c} adds "
                                f"marker_scale * P[p][{k[3]}, {k[4]}] — a "
@@ -554,7 +556,7 @@ def _markers(ctx, prog):
                 continue
             axes_seen[seg] = axis
             cname = [k for k, v in want.items() if v == axis][0]
-            if col != {("sym", cname): {(): 1.0}}:
+            if col != {(("sym", cname),): 1.0}:
                 bad.append(f"segment {seg} along the pose's "
                            f"{cname}-axis is coloured {show(col)}")
         if not bad and sorted(axes_seen.values()) != [0, 1, 2]:
